@@ -547,8 +547,11 @@ func summarise(c *core.Ctx, s *c20side, recv ssa.Value, p *paths.Path) *pathFact
 						leaves(x.X, depth+1)
 					}
 				}
-				for _, side := range []ssa.Value{b.X, b.Y} {
-					leaves(side, 0)
+				// a value compared with itself checks nothing
+				if e.Resolve(b.X) != e.Resolve(b.Y) {
+					for _, side := range []ssa.Value{b.X, b.Y} {
+						leaves(side, 0)
+					}
 				}
 				equal := (b.Op == token.EQL && e.Taken) || (b.Op == token.NEQ && !e.Taken)
 				if equal {
